@@ -44,6 +44,7 @@ type HarnessSpec struct {
 	Solver      string                    `json:"solver"`
 	Expect      string                    `json:"expect"` // "" | "violation" (self-test harnesses)
 	Known       []KnownSpec               `json:"known"`
+	Replace     map[string]string         `json:"replace"` // per-harness additions to the suite's replacement table
 }
 
 // KnownSpec links a harness assertion label to a known finding id.
@@ -77,6 +78,7 @@ type Program struct {
 	initPkgSet    map[*ssa.Package]bool
 	rtErrType     types.Type
 	errStringType types.Type
+	rtypePtr      types.Type
 	mu            sync.Mutex
 	RepoDir       string
 	VerifDir      string
@@ -194,12 +196,9 @@ func Load(repo, verif, suiteFile string) (*Program, error) {
 	for _, p := range prog.AllPackages() {
 		P.Pkgs[p.Pkg.Path()] = p
 	}
-	// build the packages we certainly execute
-	for _, p := range pkgs {
-		if sp := prog.Package(p.Types); sp != nil {
-			sp.Build()
-		}
-	}
+	// build every function body now: nothing is built lazily while workers run
+	// (lazy building of method wrappers is not safe against concurrent readers)
+	prog.Build()
 	for _, ip := range suite.InitPackages {
 		sp := P.Pkgs[ip]
 		if sp == nil {
@@ -209,16 +208,8 @@ func Load(repo, verif, suiteFile string) (*Program, error) {
 		P.initPkgSet[sp] = true
 		P.initFuncs = append(P.initFuncs, sp.Func("init"))
 	}
-	for callee, repl := range suite.Replace {
-		if repl == "" {
-			P.Repl[callee] = nil
-			continue
-		}
-		f, err := P.findFunc(repl)
-		if err != nil {
-			return nil, fmt.Errorf("replace %s: %v", callee, err)
-		}
-		P.Repl[callee] = f
+	if err := P.SetReplacements(nil); err != nil {
+		return nil, err
 	}
 	if rp := P.Pkgs["runtime"]; rp != nil {
 		if t := rp.Type("errorString"); t != nil {
@@ -231,10 +222,30 @@ func Load(repo, verif, suiteFile string) (*Program, error) {
 			P.errStringType = t.Type()
 		}
 	}
+	P.rtypePtr = types.NewPointer(types.NewNamed(types.NewTypeName(0, nil, "engineRType", nil), types.NewStruct(nil, nil), nil))
 	if P.rtErrType == nil || P.errStringType == nil {
 		return nil, fmt.Errorf("runtime.errorString / errors.errorString not found")
 	}
 	return P, nil
+}
+
+// SetReplacements installs the suite's replacement table plus per-harness additions.
+func (P *Program) SetReplacements(extra map[string]string) error {
+	P.Repl = map[string]*ssa.Function{}
+	for _, tab := range []map[string]string{P.Suite.Replace, extra} {
+		for callee, repl := range tab {
+			if repl == "" {
+				P.Repl[callee] = nil
+				continue
+			}
+			f, err := P.findFunc(repl)
+			if err != nil {
+				return fmt.Errorf("replace %s: %v", callee, err)
+			}
+			P.Repl[callee] = f
+		}
+	}
+	return nil
 }
 
 // findFunc resolves "import/path.Func" or "(*import/path.T).Method"-free form "import/path.T.Method".
